@@ -55,7 +55,7 @@ Definition chk12 (c : case12) : verdict :=
     | inl e =>
       (10 + via,
        if o_err =? 0 then 2                                   (* answered although a pre-hook rejected *)
-       else if existsb is_store_ev o_trace then 3              (* store read or written *)
+       else if existsb is_store_ev o_trace || existsb (Z.eqb 902) o_trace then 3   (* store read or written (902: through another request's pending post-processing) *)
        else if negb (o_applied =? 0) then 3
        else if o_disclosed then 2
        else if negb (zlist_eqb o_trace mtrace) then 1          (* a later hook / a post-hook ran, or order *)
@@ -67,6 +67,7 @@ Definition chk12 (c : case12) : verdict :=
       let post_fails := existsb rejects post in
       (20 + via + (if post_fails then 100 else 0),
        if negb (o_err =? 0) then 5                             (* accepted by all pre-hooks but an error was returned *)
+       else if existsb (Z.eqb 902) o_trace then 7               (* another client's pending update was replaced by this request's: applied twice *)
        else if negb (zlist_eqb (List.filter (fun z => z <? 100) o_trace) (List.filter (fun z => z <? 100) mtrace)) then 5
        else if negb (Bool.eqb o_filled filled) then (if filled then 6 else 8)
        else if negb scrape && negb (o_interval =? iv) then 106
